@@ -9,15 +9,16 @@
    [time_ok]/[bytes_ok] are the oracle hypotheses about time.Time's JSON form
    and base64 (checked on the Go side for every generated value).
    [C01_soft_resource_roundtrip] composes them through the payload skeleton
-   for soft resources (every type, every resource, every prefix).  For
-   struct-backed resources the composition is validated by the correspondence
-   run only (marshal_resource / unmarshal_resource are executed on every
-   generated resource of both implementations and compared with Go). *)
+   for soft resources (every type, every resource, every prefix), and
+   [C01_wrapped_resource_roundtrip] does the same for struct-backed resources
+   (the loops of UnmarshalResource are a history of well-typed Set calls on
+   the new struct, C17's history theorem gives what Get then returns).  Both
+   are also executed on every generated resource and compared with Go. *)
 From Coq Require Import Permutation.
 From JV Require Import Model.Base Model.GoTime Gen.TypeGo Model.Schema Model.Value
   Model.Strconv Model.Json Model.Attr Model.SoftRes Model.Wrapper Model.Resource
   Model.Marshal Model.Unmarshal
-  Proofs.C06Facts Proofs.SoftFacts Proofs.C01Facts Proofs.C01Full.
+  Proofs.C06Facts Proofs.SoftFacts Proofs.WrapperFacts Proofs.C17Facts Proofs.C01Facts Proofs.C01Full Proofs.C01Wrapped.
 
 Theorem C01_attr_roundtrip_partial : forall e a v,
   (1 <= acode a <= 14)%Z -> in_domain e a v ->
@@ -42,8 +43,7 @@ Print Assumptions C01_to_many_roundtrip_partial.
     the same ID, the same value for every attribute ([same_value]: integers
     exactly, times as instants, nil-ness kept) and the same related IDs for
     every relationship (to-many as sets).  Struct-backed resources share the
-    value-level theorems above; their composition through reflect is decided
-    by the correspondence runs only (hence the remaining _partial). *)
+    value-level theorems above; see C01_wrapped_resource_roundtrip below. *)
 Theorem C01_soft_resource_roundtrip : forall e sc sr prepath reldata want,
   let t := s_type sr in
   wf_res_type t -> tname t <> "" ->
@@ -62,6 +62,56 @@ Theorem C01_soft_resource_roundtrip : forall e sc sr prepath reldata want,
     (forall k x, lookup k (trels t) = Some x -> same_rel (soft_get sr k) (soft_get r' k)).
 Proof. exact soft_resource_roundtrip. Qed.
 Print Assumptions C01_soft_resource_roundtrip.
+
+(** The resource-level round trip for struct-backed resources.  [w] is a
+    wrapped struct whose descriptor is accepted (wstate_ok: unique json and Go
+    names, tagged exported fields, values aligned), whose slots have the Go
+    types its attributes and relationships declare and hold in-domain values
+    ([reading_ok]: a nil pointer, or a value of the property's domain); the
+    schema maps the type name to the same struct.  What Get reads afterwards
+    is the same reading ([same_reading]: nil stays nil, integers exactly,
+    times as instants ...), relationship IDs the same (to-many as sets). *)
+Theorem C01_wrapped_resource_roundtrip : forall e sc w prepath reldata want,
+  wstate_ok w ->
+  wf_res_type (mkType (w_typ w) (w_attrs w) (w_rels w)) ->
+  w_typ w <> "" ->
+  get_type (sch_schema sc) (w_typ w) = mkType (w_typ w) (w_attrs w) (w_rels w) ->
+  lookup (w_typ w) (sch_wrapped sc) = Some (w_desc w) ->
+  wrap_new (w_desc w) = Ok (mkWrapper (w_desc w) (zero_vals (w_desc w)) (w_typ w) (w_attrs w) (w_rels w)) ->
+  (forall n a, In (n, a) (w_attrs w) ->
+     exists f v0, slot_value w n = Some (f, v0) /\ sf_type f = GTAttr (acode a) (anull a) /\
+                  reading_ok e a (read_slot v0)) ->
+  (forall n x, In (n, x) (w_rels w) ->
+     exists f v0, slot_value w n = Some (f, v0) /\ sf_type f = slot_type_of_rel x /\
+                  (if to_one x then exists s, v0 = VStr s else exists nn l, v0 = VStrs nn l)) ->
+  lookup (w_typ w) reldata = Some want ->
+  (forall k, In k (map fst (w_rels w)) -> In k want) ->
+  exists j w',
+    marshal_resource e (RWrap w) prepath (soft_fields (mkType (w_typ w) (w_attrs w) (w_rels w))) reldata = Ok j /\
+    unmarshal_resource e sc j = Ok (RWrap w') /\
+    w_typ w' = w_typ w /\ w_attrs w' = w_attrs w /\ w_rels w' = w_rels w /\
+    res_get (RWrap w') "id" = res_get (RWrap w) "id" /\
+    (forall n a, In (n, a) (w_attrs w) ->
+       exists rv rv', res_get (RWrap w) n = Ok rv /\ res_get (RWrap w') n = Ok rv' /\ same_reading rv rv') /\
+    (forall n x, In (n, x) (w_rels w) ->
+       exists v v', res_get (RWrap w) n = Ok v /\ res_get (RWrap w') n = Ok v' /\ same_rel v v').
+Proof. exact wrapped_resource_roundtrip. Qed.
+Print Assumptions C01_wrapped_resource_roundtrip.
+
+(* its hypotheses are satisfiable: a struct with an ID, a string and a nil
+   *int8 attribute, an empty to-one and a two-element to-many relationship *)
+Example c01_wrapped_example : forall e,
+  exists j w',
+    marshal_resource e (RWrap exw) "/api" (soft_fields (mkType (w_typ exw) (w_attrs exw) (w_rels exw)))
+                     [("things", ["one"; "many"])] = Ok j /\
+    unmarshal_resource e exw_sch j = Ok (RWrap w') /\
+    w_typ w' = w_typ exw /\ w_attrs w' = w_attrs exw /\ w_rels w' = w_rels exw /\
+    res_get (RWrap w') "id" = res_get (RWrap exw) "id" /\
+    (forall n a, In (n, a) (w_attrs exw) ->
+       exists rv rv', res_get (RWrap exw) n = Ok rv /\ res_get (RWrap w') n = Ok rv' /\ same_reading rv rv') /\
+    (forall n x, In (n, x) (w_rels exw) ->
+       exists v v', res_get (RWrap exw) n = Ok v /\ res_get (RWrap w') n = Ok v' /\ same_rel v v').
+Proof. exact exw_roundtrip. Qed.
 
 (* non-vacuity of the hypotheses: a type with an attribute of each flavour and
    both kinds of relationship, a resource holding boundary values *)
